@@ -129,7 +129,8 @@ func genStream(r *Rng, prop, phase string, knob bool, pEarly, pErr float64) []*S
 	s.Reader = rs
 	if knob {
 		s.Knobs = map[string]int{"chunkSize": chunkKnobs[r.Intn(len(chunkKnobs))]}
-		if r.Chance(0.3) {
+		switch x := r.Intn(10); {
+		case x < 3:
 			// a block-size limit that the whole (NUL-padded) document just fits
 			// under: the arithmetic that decides how much may still be read is
 			// exercised at its boundary, where with the real constant (1 MiB) no
@@ -137,6 +138,13 @@ func genStream(r *Rng, prop, phase string, knob bool, pEarly, pErr float64) []*S
 			// still parse exactly like Parse.
 			padded := len(doc) + 2*bytes.Count(doc, []byte{0})
 			s.Knobs["maxBlockSize"] = padded + r.Range(3, 48)
+		case x < 6:
+			// ... or that only every run of adjacent ROOT BLOCKS fits under,
+			// while the document as a whole (blank lines between blocks
+			// included) may be many times larger
+			if need, ok := tightLimit(doc[:limit]); ok {
+				s.Knobs["maxBlockSize"] = need + r.Range(3, 48)
+			}
 		}
 	}
 	return []*Scenario{s}
@@ -457,6 +465,13 @@ func genTotality(r *Rng, phase string) []*Scenario {
 	case "healthy":
 		if r.Chance(0.5) {
 			s.Knobs = map[string]int{"chunkSize": chunkKnobs[r.Intn(len(chunkKnobs))]}
+			if r.Chance(0.4) {
+				// every root block fits under the limit (the document as a whole
+				// need not): still a healthy run, only io.EOF may be reported
+				if need, ok := tightLimit(doc); ok {
+					s.Knobs["maxBlockSize"] = need + r.Range(3, 48)
+				}
+			}
 		}
 	case "faulty":
 		if r.Chance(0.7) {
@@ -1012,6 +1027,12 @@ func streamStats(s *Scenario, obs *streamObs, st *runStats) (nontrivial bool) {
 	}
 	if c, ok := s.Knobs["chunkSize"]; ok {
 		st.Probes[fmt.Sprintf("knob_chunkSize_%d", c)]++
+	}
+	if m, ok := s.Knobs["maxBlockSize"]; ok && m > 0 {
+		st.Probes["knob_block_size_limit_just_above_need"]++
+		if in := doc[:rd.Limit()]; m < len(in)+2*bytes.Count(in, []byte{0}) {
+			st.Probes["knob_block_size_limit_below_document_size_every_root_block_fits"]++
+		}
 	}
 	if obs.ExtraErrs != nil {
 		st.Probes["calls_after_terminal_error"] += len(obs.ExtraErrs)
